@@ -63,6 +63,16 @@ run)
     if [ $rc -eq 1 ] && [ "$n" -gt 0 ]; then echo "$id vs $c: DETECTED ($n violation lines;$first)"; else echo "$id vs $c: MISSED (exit $rc) $(echo "$out" | tail -1 | cut -c1-200)"; fi
   done
   ;;
+overlay)
+  # one stored change against its own property's check (or the checks named) through go build -overlay (/repo untouched)
+  id=$2; shift 2
+  t=$(mktemp -d /tmp/seedov.XXXXXX)
+  checks=("$@"); [ ${#checks[@]} -eq 0 ] && checks=("${id%%-*}")
+  rc=0
+  for c in "${checks[@]}"; do cp "seeded/$id/patch.diff" "$t/$c-seed${id}.patch"; done
+  MUT_DIR="$t" ./mutants.sh all; rc=$?
+  rm -rf "$t"; exit $rc
+  ;;
 overlayall)
   # every stored change against its own property's check through go build -overlay (/repo untouched)
   t=$(mktemp -d /tmp/seedov.XXXXXX)
